@@ -92,7 +92,7 @@ VARIANTS = {
              "-O1 -g -fno-omit-frame-pointer -fsanitize=address,undefined "
              "-fno-sanitize-recover=all -D%s %s" % (GUARD, COMMON_W), []),
     "tsan": ("clang++-14", "clang-14",
-             "-O1 -g -fno-omit-frame-pointer -fsanitize=thread -D%s %s "
+             "-O1 -g -fno-inline -fno-omit-frame-pointer -fsanitize=thread -D%s %s "
              "-Wno-unknown-warning-option -Wno-unused-command-line-argument"
              % (GUARD, COMMON_W), []),
     # the project's own configuration, guard OFF (baseline)
